@@ -250,6 +250,15 @@ def check(prop, tier, seed, t0):
                     fuzzed[res['name']] = hit
                 elif res['kind'] == 'fn':
                     hit = fuzzed[res['name']]
+                if hit is not None:
+                    # the input is attributed to the undecided obligations of the clauses it falsifies (to the first undecided obligation of
+                    # the function when it falsifies a clause of another kind, e.g. an undeclared exception)
+                    bad_labels = [f_[5:-9] for f_ in hit['native']['failed'] if f_.startswith('post:') and f_.endswith(' is false')]
+                    mine = any((o.get('label') or '') == b_ or (o.get('label') or '').startswith(b_ + '.') for b_ in bad_labels)
+                    first = not any(r_ is res for r_, _o in violations)
+                    if not (mine or (first and not any((o2.get('label') or '') == b_ or (o2.get('label') or '').startswith(b_ + '.')
+                                                       for o2 in res['obligations'] for b_ in bad_labels if o2['verdict'] not in ('discharged', 'reachable')))):
+                        hit = None
                 if hit is not None and o['id'] not in failing_ids:
                     failing_ids.add(o['id'])
                     o = dict(o, model=hit['inputs'], verdict='undischarged', note=(o.get('note') or '') + ' | solver: %s; failing input found by native contract search: %s' % (v, hit['native']['failed'][:2]))
